@@ -173,8 +173,8 @@ def run(ctx):
         c = lw.Circuit(n)
         log = [["circuit", n]]
         steps = int(rng.integers(1, max_steps + 1))
-        if rng.random() < 0.006 and n <= 8:
-            steps = int(rng.choice([300, 1030, 1500, 2100, 4200]))       # very deep programs: count-dependent code paths
+        if rng.random() < 0.002 and n <= 8:
+            steps = int(rng.choice([300, 1030, 1100, 1500, 2100]))       # very deep programs: count-dependent code paths
             ctx.bucket("very_long_program")
             b.loss_p = 0.0                                               # (loss elements stay rare: each adds a mode)
             b.allow = {"bs", "ps", "barrier", "swaps", "unitary"} if rng.random() < 0.5 else \
